@@ -44,7 +44,11 @@ func c31Record(vk *vkCtx, kind string, v uint64, e *c31Env, program []byte, res 
 	vk.Case(nt, fp)
 	vk.Label("kind=" + kind)
 	vk.Label("mode=" + e.mode.String())
-	vk.Labelf("version=%d", v)
+	if v <= LogicVersion+1 {
+		vk.Labelf("version=%02d", v)
+	} else {
+		vk.Label("version=huge")
+	}
 	vk.Label("steps=" + c31Bucket(res.topSteps))
 	switch {
 	case res.err == nil && res.pass:
@@ -85,6 +89,26 @@ const c31Rule = "programs drawn from the live opcode tables for versions 0..Logi
 	"non-trivial = the outermost program executed >= 5 instructions or died inside an opcode implementation (not in the pre-checks of step); " +
 	"distinct by (version, mode, opcode that ended the run, normalised error class)"
 
+// development aid: VERIF_C31_DEBUG_ERR=<substring of an error class> prints a few generated programs ending that way
+var c31DebugErr = os.Getenv("VERIF_C31_DEBUG_ERR")
+var c31DebugLeft = 40
+
+// c31DrawSeeds: rapid's integer generators favour small values, so a single drawn word repeats often (measured: the same
+// program generated thousands of times). Several words are mixed so that a repeated seed needs all of them to repeat.
+func c31DrawSeeds(rt *rapid.T) (uint64, uint64) {
+	mix := func(x uint64) uint64 {
+		x += 0x9e3779b97f4a7c15
+		x = (x ^ (x >> 30)) * 0xbf58476d1ce4e5b9
+		x = (x ^ (x >> 27)) * 0x94d049bb133111eb
+		return x ^ (x >> 31)
+	}
+	var h uint64
+	for i := 0; i < 4; i++ {
+		h = mix(h ^ rapid.Uint64().Draw(rt, "seed"))
+	}
+	return h, mix(h ^ 0xe7037ed1a0b428db)
+}
+
 func c31DrawVersion(s c31Src) uint64 {
 	if c31Pct(s, 55) {
 		return uint64(LogicVersion - s.N(3))
@@ -98,8 +122,7 @@ func TestVerif_C31_Gen(t *testing.T) {
 	vk.Rule(c31Rule)
 	vk.Assume("the in-package test Ledger mock stands in for the real ledger; panics raised inside the mock itself are excluded and counted")
 	rapid.Check(t, func(rt *rapid.T) {
-		seedP := rapid.Uint64().Draw(rt, "programSeed")
-		seedE := rapid.Uint64().Draw(rt, "envSeed")
+		seedP, seedE := c31DrawSeeds(rt)
 		s := c31NewPRNG(seedP)
 		v := c31DrawVersion(s)
 		e := c31BuildEnv(c31NewPRNG(seedE), v)
@@ -128,6 +151,14 @@ func TestVerif_C31_Gen(t *testing.T) {
 		}
 		program, _ := c31Encode(v, ins)
 		res := c31Run(e, program)
+		if c31DebugErr != "" && strings.Contains(res.lastOp+"|"+res.errClass, c31DebugErr) && c31DebugLeft > 0 {
+			c31DebugLeft--
+			if os.Getenv("VERIF_C31_DEBUG_FULL") != "" {
+				fmt.Printf("DEBUG %s: %v\n%s\nsource:\n%s\n", kind, res.err, c31Describe(e, program), c31Render(v, ins))
+			} else {
+				fmt.Printf("DEBUG %s: %.300v\n", kind, res.err)
+			}
+		}
 		if res.viol != "" {
 			// minimise: same environment seed, fewer instructions, same kind of violation
 			key := c31ViolKey(res.viol)
@@ -158,6 +189,25 @@ func c31ViolKey(v string) string {
 	return v
 }
 
+// c31CBlockPrefix returns the length of version byte + leading intcblock/bytecblock of an upstream sample.
+func c31CBlockPrefix(p []byte) int {
+	pos := 1
+	if pos < len(p) && p[pos] == 0x20 {
+		if _, next, err := parseIntImmArgs(p, pos+1); err == nil {
+			pos = next
+		}
+	}
+	if pos < len(p) && p[pos] == 0x26 {
+		if _, next, err := parseByteImmArgs(p, pos+1); err == nil {
+			pos = next
+		}
+	}
+	if pos >= len(p) {
+		return 1
+	}
+	return pos
+}
+
 func c31UpstreamPrograms() [][]byte {
 	var out [][]byte
 	for v := uint64(1); v <= LogicVersion; v++ {
@@ -176,8 +226,7 @@ func TestVerif_C31_Mutate(t *testing.T) {
 	vk.Rule(c31Rule)
 	up := c31UpstreamPrograms()
 	rapid.Check(t, func(rt *rapid.T) {
-		seedP := rapid.Uint64().Draw(rt, "programSeed")
-		seedE := rapid.Uint64().Draw(rt, "envSeed")
+		seedP, seedE := c31DrawSeeds(rt)
 		s := c31NewPRNG(seedP)
 		var program []byte
 		kind := "mutated-generated"
@@ -191,13 +240,14 @@ func TestVerif_C31_Mutate(t *testing.T) {
 		case k < 8:
 			kind = "mutated-upstream"
 			base := up[s.N(len(up))]
-			if c31Pct(s, 50) { // a window of the long sample keeps the mutation relevant
-				start := 1 + s.N(len(base)-1)
+			if c31Pct(s, 60) { // constant blocks + a window of the long sample keep the mutation relevant
+				pre := c31CBlockPrefix(base)
+				start := pre + s.N(len(base)-pre)
 				end := start + 1 + s.N(80)
 				if end > len(base) {
 					end = len(base)
 				}
-				base = append([]byte{base[0]}, base[start:end]...)
+				base = append(append([]byte(nil), base[:pre]...), base[start:end]...)
 			}
 			program = c31Mutate(s, base)
 		default:
